@@ -188,6 +188,11 @@ def check(run, prog, tier):
     run.rule("C02-O", "an evolution answers from the states it has stored: a state object handed to it at construction, whose "
                       "values were copied into the storage, is the caller's and is not read again for a result", minimum=1)
     rule_O(run, prog)
+    run.rule("C02-S", "the tensor representation of an operator-form generator is computed in the basis in force: no raw storage of "
+                      "the managed operators in a method that assigns the managed data (shared with C04-B14)", minimum=15)
+    from . import c04
+    from ..report import RuleProxy
+    c04.rule_B14(RuleProxy(run, "C02-S"), prog, rid="C02-S")
     run.rule("C02-R", "the density matrix made of a state vector is |psi><psi|: the amplitude of the column index is the conjugated one", minimum=3)
     rule_R(run, prog)
     run.rule("C02-Q", "the Hamiltonian hands out its matrices (also the rotating-frame one) for the basis and units in force at the "
